@@ -81,10 +81,14 @@ static async<int> co_nested_throw(int x, Guard g) { Guard local; g_body_runs[3]+
 static async<int> co_nested_catch(int x, Guard g) { Guard local; g_body_runs[3]++; int v; try { v = co_await co_throw(x, Guard()); } catch (int e) { v = e + 7; } co_return v; }
 static async<int> co_nested_susp(future<int> &src, Guard g) { Guard local; g_body_runs[3]++; int v = co_await co_susp(src, Guard()); co_return v + 100; }
 static async<int> co_nested3(int x, Guard g) { Guard local; g_outer_runs++; int v = co_await co_nested(x, Guard()); co_return v + 1000; }
+static async<int> co_susp2(future<int> &f1, future<int> &f2, Guard g) { Guard local; g_body_runs[2]++; int a = co_await f1; Guard mid; int b = co_await f2; co_return a * 2 + b; }
 static async<void> co_susp_void(future<int> &f, Guard g) { Guard local; g_body_runs[2]++; int v = co_await f; g_choice = v; co_return; }
 static async<int> co_nested_void(int x, Guard g) { Guard local; g_body_runs[3]++; co_await co_void(x, Guard()); co_return x + 100; }
 extern "C" {
 int drive_susp_void(int x) { future<int> src; auto p = src.get_promise(); future<void> f = co_susp_void(src, Guard()).start(); if (!f.pending()) return 0; { auto sp = p(x); } if (f.pending()) g_seen_pending++; try { f.value(); g_seen_value = g_choice; } catch (...) { g_seen_exc = 1; } return 1; }
+int drive_susp_twice(int x, int y) { future<int> s1, s2; auto p1 = s1.get_promise(); auto p2 = s2.get_promise(); future<int> f = co_susp2(s1, s2, Guard()).start(); if (!f.pending()) return 0;
+    { auto sp = p1(x); } if (!f.pending() || g_guard_ctor != g_guard_dtor + 3) return 0; { auto sp = p2(y); } observe(f); return 1; }
+int drive_susp_ready(int x) { future<int> src; { auto p = src.get_promise(); auto sp = p(x); } future<int> f = co_susp(src, Guard()).start(); observe(f); return 1; }
 int drive_nested_void(int x) { future<int> f = co_nested_void(x, Guard()).start(); observe(f); return 1; }
 int drive_susp_exception(int x) { future<int> src; auto p = src.get_promise(); future<int> f = co_susp(src, Guard()).start(); if (!f.pending()) return 0; try { throw x; } catch (...) { auto sp = p.set_exception(std::current_exception()); } observe(f); return 1; }
 int drive_susp_promise(int x) { future<int> src; auto p = src.get_promise(); future<int> f; auto q = f.get_promise(); { auto sp = co_susp(src, Guard()).start(q); } if (!f.pending()) return 0; { auto sp = p(x); } observe(f); return 1; }
